@@ -190,7 +190,9 @@ def _block(stmts, fn_counts):
         if q:
             kind, ge = q
             g = ge.generators[0]
-            nm = f'{kind}__{core.lineno}'
+            # `x = any(..)`: x itself is the flag
+            direct = isinstance(s, ast.Assign)
+            nm = s.targets[0].id if direct else f'{kind}__{core.lineno}'
             hit = [ast.Assign(targets=[ast.Name(id=nm, ctx=ast.Store())], value=ast.Constant(kind == 'any')), ast.Break()]
             inner = ast.If(test=ge.elt if kind == 'any' else ast.UnaryOp(op=ast.Not(), operand=ge.elt), body=hit, orelse=[])
             for c in reversed(g.ifs):
@@ -210,7 +212,7 @@ def _block(stmts, fn_counts):
                     s.test.operand = ref
             else:
                 s.value = ref
-            stmts[i:i + 1] = [init, loop, s]
+            stmts[i:i + 1] = [init, loop] if direct else [init, loop, s]
             s = init
         # 2b. `D.setdefault(K, []).append(V)` is `if K not in D: D[K] = [V] else: D[K].append(V)` (D, K, V plain names / attribute chains / constants)
         if isinstance(s, ast.Expr) and isinstance(s.value, ast.Call) and isinstance(s.value.func, ast.Attribute) and s.value.func.attr == 'append' \
@@ -396,8 +398,65 @@ def canonicalise_function(fn, generated=False):
     ast.fix_missing_locations(fn)
 
 
+def _count_loops(tree):
+    """10. `for x in itertools.count(a[, s]): BODY` (x a plain name BODY does not bind, no `continue`, no else) is
+    `x = a; while True: BODY; x += s`"""
+    names = set()
+    for n in tree.body:
+        if isinstance(n, ast.ImportFrom) and n.module == 'itertools':
+            names |= {(a.asname or a.name) for a in n.names if a.name == 'count'}
+        elif isinstance(n, ast.Import):
+            names |= {(a.asname or a.name) + '.count' for a in n.names if a.name == 'itertools'}
+    if not names:
+        return
+
+    def own_continue(stmts):
+        for s in stmts:
+            if isinstance(s, ast.Continue):
+                return True
+            if isinstance(s, (ast.For, ast.AsyncFor, ast.While, ast.FunctionDef, ast.AsyncFunctionDef, ast.ClassDef)):
+                continue
+            for fld in ('body', 'orelse', 'finalbody'):
+                b = getattr(s, fld, None)
+                if isinstance(b, list) and b and isinstance(b[0], ast.stmt) and own_continue(b):
+                    return True
+            if isinstance(s, ast.Try) and any(own_continue(h.body) for h in s.handlers):
+                return True
+        return False
+
+    def block(stmts):
+        out = []
+        for s in stmts:
+            for fld in ('body', 'orelse', 'finalbody'):
+                b = getattr(s, fld, None)
+                if isinstance(b, list) and b and isinstance(b[0], ast.stmt):
+                    setattr(s, fld, block(b))
+            if isinstance(s, ast.Try):
+                for h in s.handlers:
+                    h.body = block(h.body)
+            if isinstance(s, ast.For) and not s.orelse and isinstance(s.target, ast.Name) and isinstance(s.iter, ast.Call) and ast.unparse(s.iter.func) in names \
+                    and len(s.iter.args) <= 2 and not s.iter.keywords and not own_continue(s.body) \
+                    and not any(isinstance(x, ast.Name) and x.id == s.target.id and isinstance(x.ctx, (ast.Store, ast.Del)) for b_ in s.body for x in ast.walk(b_)) \
+                    and all(isinstance(a, (ast.Constant, ast.Name)) for a in s.iter.args):
+                start = s.iter.args[0] if s.iter.args else ast.Constant(0)
+                step = s.iter.args[1] if len(s.iter.args) == 2 else ast.Constant(1)
+                init = ast.Assign(targets=[ast.Name(id=s.target.id, ctx=ast.Store())], value=start)
+                inc = ast.AugAssign(target=ast.Name(id=s.target.id, ctx=ast.Store()), op=ast.Add(), value=step)
+                loop = ast.While(test=ast.Constant(True), body=s.body + [inc], orelse=[])
+                for x in (init, inc, loop):
+                    ast.copy_location(x, s)
+                    ast.fix_missing_locations(x)
+                out += [init, loop]
+                continue
+            out.append(s)
+        return out
+    for fn in [n for n in ast.walk(tree) if isinstance(n, (ast.FunctionDef, ast.AsyncFunctionDef))]:
+        fn.body = block(fn.body)
+
+
 def canonicalise(tree):
     """in-place canonicalisation of a module tree; returns the tree"""
+    _count_loops(tree)
     _Expr().visit(tree)
     for fn in [n for n in ast.walk(tree) if isinstance(n, (ast.FunctionDef, ast.AsyncFunctionDef))]:
         fn.body = _block(fn.body, _counts(fn))
